@@ -243,7 +243,7 @@ def _cmps_(i, fmap, l):
         fmap[af] = tst(cnt == 0, fmap(af), halfborrow(dst, src))
         fmap[pf] = tst(cnt == 0, fmap(pf), parity8(x[0:8]))
         fmap[zf] = tst(cnt == 0, fmap(zf), x == 0)
-        fmap[sf] = tst(cnt == 0, fmap(sf), x < 0)
+        fmap[sf] = tst(cnt == 0, fmap(sf), x.bit(-1))
         fmap[cf] = tst(cnt == 0, fmap(cf), carry)
         fmap[of] = tst(cnt == 0, fmap(of), overflow)
         fmap[rip] = tst(cnt == 0, fmap[rip] + i.length, fmap[rip])
@@ -252,7 +252,7 @@ def _cmps_(i, fmap, l):
         fmap[af] = halfborrow(dst, src)
         fmap[pf] = parity8(x[0:8])
         fmap[zf] = x == 0
-        fmap[sf] = x < 0
+        fmap[sf] = x.bit(-1)
         fmap[cf] = carry
         fmap[of] = overflow
         fmap[rip] = fmap[rip] + i.length
@@ -287,7 +287,7 @@ def _scas_(i, fmap, l):
         fmap[af] = tst(cnt == 0, fmap(af), halfborrow(a, src))
         fmap[pf] = tst(cnt == 0, fmap(pf), parity8(x[0:8]))
         fmap[zf] = tst(cnt == 0, fmap(zf), x == 0)
-        fmap[sf] = tst(cnt == 0, fmap(sf), x < 0)
+        fmap[sf] = tst(cnt == 0, fmap(sf), x.bit(-1))
         fmap[cf] = tst(cnt == 0, fmap(cf), carry)
         fmap[of] = tst(cnt == 0, fmap(of), overflow)
         fmap[rip] = tst(cnt == 0, fmap[rip] + i.length, fmap[rip])
@@ -296,7 +296,7 @@ def _scas_(i, fmap, l):
         fmap[af] = halfborrow(a, src)
         fmap[pf] = parity8(x[0:8])
         fmap[zf] = x == 0
-        fmap[sf] = x < 0
+        fmap[sf] = x.bit(-1)
         fmap[cf] = carry
         fmap[of] = overflow
         fmap[rip] = fmap[rip] + i.length
@@ -588,7 +588,7 @@ def i_INC(i, fmap):
     fmap[af] = halfcarry(a, b)
     fmap[pf] = parity8(x[0:8])
     fmap[zf] = x == 0
-    fmap[sf] = x < 0
+    fmap[sf] = x.bit(-1)
     fmap[of] = overflow
     op1, x = _r32_zx64(op1, x)
     fmap[op1] = x
@@ -604,7 +604,7 @@ def i_DEC(i, fmap):
     fmap[af] = halfborrow(a, b)
     fmap[pf] = parity8(x[0:8])
     fmap[zf] = x == 0
-    fmap[sf] = x < 0
+    fmap[sf] = x.bit(-1)
     fmap[of] = overflow
     op1, x = _r32_zx64(op1, x)
     fmap[op1] = x
@@ -620,7 +620,7 @@ def i_NEG(i, fmap):
     fmap[pf] = parity8(x[0:8])
     fmap[cf] = b != 0
     fmap[zf] = x == 0
-    fmap[sf] = x < 0
+    fmap[sf] = x.bit(-1)
     fmap[of] = overflow
     op1, x = _r32_zx64(op1, x)
     fmap[op1] = x
@@ -703,7 +703,7 @@ def i_ADC(i, fmap):
     fmap[pf] = parity8(x[0:8])
     fmap[af] = halfcarry(a, op2, c)
     fmap[zf] = x == 0
-    fmap[sf] = x < 0
+    fmap[sf] = x.bit(-1)
     fmap[cf] = carry
     fmap[of] = overflow
     op1, x = _r32_zx64(op1, x)
@@ -719,7 +719,7 @@ def i_ADD(i, fmap):
     fmap[pf] = parity8(x[0:8])
     fmap[af] = halfcarry(a, op2)
     fmap[zf] = x == 0
-    fmap[sf] = x < 0
+    fmap[sf] = x.bit(-1)
     fmap[cf] = carry
     fmap[of] = overflow
     op1, x = _r32_zx64(op1, x)
@@ -736,7 +736,7 @@ def i_SBB(i, fmap):
     fmap[pf] = parity8(x[0:8])
     fmap[af] = halfborrow(a, op2, c)
     fmap[zf] = x == 0
-    fmap[sf] = x < 0
+    fmap[sf] = x.bit(-1)
     fmap[cf] = carry
     fmap[of] = overflow
     op1, x = _r32_zx64(op1, x)
@@ -752,7 +752,7 @@ def i_SUB(i, fmap):
     fmap[pf] = parity8(x[0:8])
     fmap[af] = halfborrow(a, op2)
     fmap[zf] = x == 0
-    fmap[sf] = x < 0
+    fmap[sf] = x.bit(-1)
     fmap[cf] = carry
     fmap[of] = overflow
     op1, x = _r32_zx64(op1, x)
@@ -767,7 +767,7 @@ def i_AND(i, fmap):
         op2 = op2.signextend(op1.size)
     x = fmap(op1) & op2
     fmap[zf] = x == 0
-    fmap[sf] = x < 0
+    fmap[sf] = x.bit(-1)
     fmap[cf] = bit0
     fmap[of] = bit0
     fmap[pf] = parity8(x[0:8])
@@ -781,7 +781,7 @@ def i_OR(i, fmap):
     op2 = fmap(i.operands[1])
     x = fmap(op1) | op2
     fmap[zf] = x == 0
-    fmap[sf] = x < 0
+    fmap[sf] = x.bit(-1)
     fmap[cf] = bit0
     fmap[of] = bit0
     fmap[pf] = parity8(x[0:8])
@@ -795,7 +795,7 @@ def i_XOR(i, fmap):
     op2 = fmap(i.operands[1])
     x = fmap(op1) ^ op2
     fmap[zf] = x == 0
-    fmap[sf] = x < 0
+    fmap[sf] = x.bit(-1)
     fmap[cf] = bit0
     fmap[of] = bit0
     fmap[pf] = parity8(x[0:8])
@@ -810,7 +810,7 @@ def i_CMP(i, fmap):
     x, carry, overflow = SubWithBorrow(op1, op2)
     fmap[af] = halfborrow(op1, op2)
     fmap[zf] = x == 0
-    fmap[sf] = x < 0
+    fmap[sf] = x.bit(-1)
     fmap[cf] = carry
     fmap[of] = overflow
     fmap[pf] = parity8(x[0:8])
@@ -924,7 +924,7 @@ def i_SHR(i, fmap):
         fmap[cf] = top(1)
         fmap[of] = top(1)
     res = a >> count
-    fmap[sf] = res < 0
+    fmap[sf] = res.bit(-1)
     fmap[zf] = res == 0
     fmap[pf] = parity8(res[0:8])
     op1, res = _r32_zx64(op1, res)
@@ -956,7 +956,7 @@ def i_SAR(i, fmap):
         fmap[cf] = top(1)
         fmap[of] = top(1)
     res = a // count  # (// is used as arithmetic shift in cas.py)
-    fmap[sf] = res < 0
+    fmap[sf] = res.bit(-1)
     fmap[zf] = res == 0
     fmap[pf] = parity8(res[0:8])
     op1, res = _r32_zx64(op1, res)
@@ -988,7 +988,7 @@ def i_SHL(i, fmap):
     else:
         fmap[cf] = top(1)
         fmap[of] = top(1)
-    fmap[sf] = x < 0
+    fmap[sf] = x.bit(-1)
     fmap[zf] = x == 0
     fmap[pf] = parity8(x[0:8])
     op1, x = _r32_zx64(op1, x)
@@ -1131,7 +1131,7 @@ def i_SHRD(i, fmap):
         n = op3.value
         r = op1.size - n
         x = (fmap(op1) >> n) | (op2 << r)
-    fmap[sf] = x < 0
+    fmap[sf] = x.bit(-1)
     fmap[zf] = x == 0
     fmap[pf] = parity8(x[0:8])
     op1, x = _r32_zx64(op1, x)
@@ -1150,7 +1150,7 @@ def i_SHLD(i, fmap):
         r = op1.size - n
         x = (fmap(op1) << n) | (op2 >> r)
     fmap[op1] = x
-    fmap[sf] = x < 0
+    fmap[sf] = x.bit(-1)
     fmap[zf] = x == 0
     fmap[pf] = parity8(x[0:8])
     op1, x = _r32_zx64(op1, x)
